@@ -13,6 +13,7 @@
 -/
 import PdsVerif.Lemmas.SiFull
 import PdsVerif.Lemmas.SiGInt
+import PdsVerif.Lemmas.Dft
 set_option linter.unusedSectionVars false
 set_option linter.unusedVariables false
 namespace PdsVerif.C03
@@ -20,6 +21,37 @@ open PdsVerif.Model.Si PdsVerif.Seg PdsVerif.SiBasic PdsVerif.SiAcc PdsVerif.SiC
 open PdsVerif.SiGInt
 
 variable {α : Type} [CommRing α]
+
+/-! ### stage 0: the DFT convolution theorem (previously trusted) -/
+
+/-- **`circConv` is what the code computes.**  Over ℂ, with `dft` / `idft` NumPy's documented transforms
+(`Lemmas/Dft.lean`), `idft(dft(buf, D) · dft(h, D))` — the code's `irfft(rfft(buf) * rfft(h))`, resp.
+`ifft(fft · fft)` — is exactly the model's `circConv D buf h`, for every DFT size, buffer and filter of at
+most `D` taps (`Dft.idft_dft_mul`: character orthogonality).  Only "NumPy's FFT routines compute the DFT"
+remains trusted. -/
+theorem circConv_eq_idft_dft_mul (D : Nat) (hD : 0 < D) (buf h : List ℂ) (hh : h.length ≤ D) :
+    circConv D buf h = (List.range D).map fun (p : Nat) =>
+      Dft.idft D (fun k => Dft.dft D (fun n => buf.getD n 0) (k : ℤ) * Dft.dft D (fun n => h.getD n 0) (k : ℤ))
+        (p : ℤ) := by
+  unfold circConv
+  apply List.map_congr_left
+  intro p hp
+  have hp' : p < D := List.mem_range.mp hp
+  rw [Dft.idft_dft_mul D (Nat.pos_iff_ne_zero.mp hD) _ _ p hp']
+  have hsum : ∀ (f : Nat → ℂ) (n : Nat), ((List.range n).map f).sum = ∑ i ∈ Finset.range n, f i := by
+    intro f n
+    induction n with
+    | zero => simp
+    | succ n ih => rw [List.range_succ, List.map_append, List.sum_append, ih, Finset.sum_range_succ]; simp
+  rw [hsum]
+  apply Finset.sum_subset (Finset.range_subset_range.mpr hh)
+  intro j _ hj
+  have : h.length ≤ j := by simpa using hj
+  have h0 : h.getD j 0 = 0 := by
+    rw [List.getD_eq_getElem?_getD, List.getElem?_eq_none this]; rfl
+  rw [h0, zero_mul]
+
+example : (3 : Nat) ≤ 5 ∧ 0 < 5 := by decide
 
 /-! ### stage 1: overlap-save -/
 
